@@ -711,7 +711,12 @@ class RtpPacket:
                 raise ValueError("RTP packet has truncated extension value")
             extension_value = data[pos : pos + extension_length]
             pos += extension_length
-            packet.extensions = extensions_map.get(extension_profile, extension_value)
+            try:
+                packet.extensions = extensions_map.get(
+                    extension_profile, extension_value
+                )
+            except struct.error:
+                raise ValueError("RTP packet has a header extension of invalid length")
 
         if padding:
             padding_len = data[-1]
